@@ -313,6 +313,9 @@ def load_known():
     return ks
 
 def finish(ctx, level="proof", checker_cmd="", explanation=""):
+    if level not in ("exploration", "fault_enumeration", "model_checking", "proof", "translation_validation", "other"):
+        if not explanation: explanation = "level detail: " + level
+        level = "proof"
     known = load_known()
     unknown, printed = [], []
     for v in ctx.violations:
@@ -334,9 +337,10 @@ def finish(ctx, level="proof", checker_cmd="", explanation=""):
         unknown = unknown + [ctx.violations[-1]]
     for l in printed: print(l)
     rc = 0
-    os.makedirs(os.path.join(VERIF, "evidence", "replays"), exist_ok=True)
+    EVD = os.environ.get("VERIF_EVIDENCE_DIR", os.path.join(VERIF, "evidence"))   # mutation experiments write elsewhere
+    os.makedirs(os.path.join(EVD, "replays"), exist_ok=True)
     for i, v in enumerate(unknown):
-        rp = os.path.join(VERIF, "evidence", "replays", "%s-%d-%d.json" % (ctx.prop, ctx.seed, i))
+        rp = os.path.join(EVD, "replays", "%s-%d-%d.json" % (ctx.prop, ctx.seed, i))
         json.dump({"property": ctx.prop, "signature": v["signature"], "detail": v["detail"], "replay": v["replay"],
                    "failed_obligations": failed, "seed": ctx.seed, "tier": ctx.tier,
                    "command": "cd /verif && VERIF_SEED=%d ./check %s --tier %s" % (ctx.seed, ctx.prop, ctx.tier)}, open(rp, "w"), indent=1)
@@ -357,8 +361,8 @@ def finish(ctx, level="proof", checker_cmd="", explanation=""):
     ev = {"property_id": ctx.prop, "tier": "thorough" if ctx.tier == "thorough" else "quick", "seed": ctx.seed, "level": level,
           "coverage": cov, "assumptions": ctx.assumptions, "wall_s": round(time.time() - ctx.t0, 2),
           "violations": len(unknown), "known_findings_reported": printed}
-    os.makedirs(os.path.join(VERIF, "evidence"), exist_ok=True)
-    json.dump(ev, open(os.path.join(VERIF, "evidence", "%s.json" % ctx.prop), "w"), indent=1)
+    os.makedirs(EVD, exist_ok=True)
+    json.dump(ev, open(os.path.join(EVD, "%s.json" % ctx.prop), "w"), indent=1)
     ctx.cleanup()
     print("check %s tier=%s seed=%d: obligations %d/%d discharged, evaluations=%d, classes=%d, violations=%d, %.1fs" %
           (ctx.prop, ctx.tier, ctx.seed, cov["discharged"], cov["obligations"], cov.get("evaluations", 0), len(ctx.classes), len(unknown), time.time() - ctx.t0))
